@@ -209,3 +209,36 @@
   (=> (isActive r rid) (and (requestFound r rid) (bindFound r (reqSvc r rid) (reqProv r rid)) (ordinary (reqConsumer r rid))
         (= (BytesValue_Value (dec_BytesValue (select r (KActID rid)))) rid))))
 (define-fun actInv ((r (Array Key Bytes))) Bool (forall ((rid Bytes)) (! (actOK r rid) :pattern ((select r (KActID rid))))))
+
+; ---- listings (queries): records under a prefix, in key order
+(declare-fun bindsIt ((Array Key Bytes) Prefix Int) (Slice ServiceBinding))
+(assert (forall ((s (Array Key Bytes)) (p Prefix)) (! (= (bindsIt s p 0) (mkSlice 0 zarr_ServiceBinding)) :pattern ((bindsIt s p 0)))))
+(assert (forall ((s (Array Key Bytes)) (p Prefix) (n Int)) (! (=> (> n 0) (= (bindsIt s p n) (let ((prev (bindsIt s p (- n 1))))
+   (mkSlice (+ (slen prev) 1) (store (sarr prev) (slen prev) (dec_ServiceBinding (select s (itKey s p (- n 1))))))))) :pattern ((bindsIt s p n)))))
+(declare-fun respsIt ((Array Key Bytes) Prefix Int) (Slice Response))
+(assert (forall ((s (Array Key Bytes)) (p Prefix)) (! (= (respsIt s p 0) (mkSlice 0 zarr_Response)) :pattern ((respsIt s p 0)))))
+(assert (forall ((s (Array Key Bytes)) (p Prefix) (n Int)) (! (=> (> n 0) (= (respsIt s p n) (let ((prev (respsIt s p (- n 1))))
+   (mkSlice (+ (slen prev) 1) (store (sarr prev) (slen prev) (dec_Response (select s (itKey s p (- n 1))))))))) :pattern ((respsIt s p n)))))
+; requests listed through pending markers (the marker value names the request) and through request keys
+(define-fun requestOrZero ((r (Array Key Bytes)) (rid Bytes)) Request (ite (requestFound r rid) (requestOf r rid) zero_Request))
+(declare-fun reqsByMarkerIt ((Array Key Bytes) Prefix Int) (Slice Request))
+(assert (forall ((s (Array Key Bytes)) (p Prefix)) (! (= (reqsByMarkerIt s p 0) (mkSlice 0 zarr_Request)) :pattern ((reqsByMarkerIt s p 0)))))
+(assert (forall ((s (Array Key Bytes)) (p Prefix) (n Int)) (! (=> (> n 0) (= (reqsByMarkerIt s p n) (let ((prev (reqsByMarkerIt s p (- n 1))))
+   (mkSlice (+ (slen prev) 1) (store (sarr prev) (slen prev) (requestOrZero s (BytesValue_Value (dec_BytesValue (select s (itKey s p (- n 1))))))))))) :pattern ((reqsByMarkerIt s p n)))))
+(declare-fun reqsByKeyIt ((Array Key Bytes) Prefix Int) (Slice Request))
+(assert (forall ((s (Array Key Bytes)) (p Prefix)) (! (= (reqsByKeyIt s p 0) (mkSlice 0 zarr_Request)) :pattern ((reqsByKeyIt s p 0)))))
+(assert (forall ((s (Array Key Bytes)) (p Prefix) (n Int)) (! (=> (> n 0) (= (reqsByKeyIt s p n) (let ((prev (reqsByKeyIt s p (- n 1))))
+   (mkSlice (+ (slen prev) 1) (store (sarr prev) (slen prev) (requestOrZero s (kreq_rid (itKey s p (- n 1))))))))) :pattern ((reqsByKeyIt s p n)))))
+; bindings of one owner: the owner index lists (service, provider) pairs; each is looked up in the primary records
+(declare-fun ownerBindsIt ((Array Key Bytes) Prefix Int) (Slice ServiceBinding))
+(assert (forall ((s (Array Key Bytes)) (p Prefix)) (! (= (ownerBindsIt s p 0) (mkSlice 0 zarr_ServiceBinding)) :pattern ((ownerBindsIt s p 0)))))
+(assert (forall ((s (Array Key Bytes)) (p Prefix) (n Int)) (! (=> (> n 0) (= (ownerBindsIt s p n) (let ((prev (ownerBindsIt s p (- n 1))) (k (itKey s p (- n 1))))
+   (ite (bindFound s (kob_svc k) (kob_prov k)) (mkSlice (+ (slen prev) 1) (store (sarr prev) (slen prev) (bindOf s (kob_svc k) (kob_prov k)))) prev)))) :pattern ((ownerBindsIt s p n)))))
+; parsing an owner-index key (justified by the layout lemmas of layer K; service names contain no 0x00 byte)
+(declare-fun unwrapCtx (Iface) Ctx)
+(declare-fun bytesIndex (Bytes Bytes) Int)
+(define-fun obTail ((s Str) (p Bytes)) Bytes (bconcat (s2b s) (bconcat (b1 0) p)))
+(assert (forall ((o Bytes) (s Str) (p Bytes)) (! (and (= (blen (kbytes (KOwnerBind o s p))) (+ 2 (blen o) (strlen s) (blen p)))
+   (=> (= (blen o) 20) (= (bslice (kbytes (KOwnerBind o s p)) 21 (blen (kbytes (KOwnerBind o s p)))) (obTail s p)))) :pattern ((kbytes (KOwnerBind o s p))))))
+(assert (forall ((s Str) (p Bytes)) (! (and (= (blen (obTail s p)) (+ 1 (strlen s) (blen p))) (= (bytesIndex (obTail s p) g_types_EmptyByte) (strlen s))
+   (= (b2s (bslice (obTail s p) 0 (strlen s))) s) (= (bslice (obTail s p) (+ (strlen s) 1) (blen (obTail s p))) p)) :pattern ((obTail s p)))))
